@@ -61,7 +61,8 @@ def ob_fq_read(cfg="A"):
         raise Violation("Fq::read_big_endian:trace", "Fq::read_big_endian performs %d Montgomery multiplications (expected one, by R^2)" % len(calls), {})
     out, a_ptr, a, r2, p, inv = calls[0]
     R2 = pow(1 << 384, 2, Q)
-    INV = (-pow(Q, -1, 1 << 64)) % (1 << 64)
+    wb = 32 if cfg == "P32" else 64
+    INV = (-pow(Q, -1, 1 << wb)) % (1 << wb)
     if not (out.obj is this and out.off == 0 and r2 == R2 and p == Q and is_conc(inv) and inv == INV):
         raise Violation("Fq::read_big_endian:operands", "the Montgomery multiplication in Fq::read_big_endian is not (this := x * R^2 mod q with the inverse word of q): "
                         "r2 ok=%s, modulus ok=%s, inverse word ok=%s" % (r2 == R2, p == Q, is_conc(inv) and inv == INV), {})
@@ -99,7 +100,8 @@ def ob_fq_write(cfg="A"):
     this = m.bv_obj("this", 384, V, const=True)
     buf = Obj("buffer", 48, "arg", 1)
     I.call_named(fname, [Ptr(this, 0), Ptr(buf, 0)])
-    INV = (-pow(Q, -1, 1 << 64)) % (1 << 64)
+    wb = 32 if cfg == "P32" else 64
+    INV = (-pow(Q, -1, 1 << wb)) % (1 << wb)
     if len(calls) != 1:
         raise Violation("Fq::write_big_endian:trace", "Fq::write_big_endian performs %d Montgomery reductions (expected one)" % len(calls), {})
     out, lo, hi, p, inv = calls[0]
@@ -384,9 +386,12 @@ def register(chk):
     import c04_more
     c06_loops.prog()
     c04_more.prog()
-    chk.add("more:Fq::read_big_endian", ob_fq_read)
-    chk.add("more:Fq::write_big_endian", ob_fq_write)
-    chk.add("more:Fq::compare", ob_fq_compare)
+    c02().prog_for("P32")          # built here (parent process) also in the quick tier: the byte-level obligations below are cheap in every configuration
+    for cfg in ("A", "P64", "P32"):
+        sfx = "" if cfg == "A" else ":" + cfg
+        chk.add("more:Fq::read_big_endian" + sfx, ob_fq_read, cfg)
+        chk.add("more:Fq::write_big_endian" + sfx, ob_fq_write, cfg)
+        chk.add("more:Fq::compare" + sfx, ob_fq_compare, cfg)
     chk.add("more:forwarders", ob_forwarders)
     for N in (256, 384):
         for alias in (0, 1, 2, 3):
